@@ -17,7 +17,7 @@ import (
 )
 
 func TestMain(m *testing.M) {
-	vstat.Rule("TokenBucketSet (sub-second periods allowed) and the HTTP TokenLimiter (periods >= 1s), 1-3 rates, frozen clock. Operation programs: advance(d), consume(n) with n around the bursts, flood(k,n) at one instant, retry-after-advertised-delay (advance exactly the returned delay / X-Retry-In, repeat the request), idle(burst*tau) then consume(min burst), consume(n > burst). Oracles: (i) metamorphic: deleting every rejected request that is not the first request at its instant leaves every remaining decision and delay identical (second instance replays the reduced time-line); (ii) a rejected n <= burst retried after the advertised delay is admitted; (iii) after idling max(burst*tau) a request of the smallest burst is admitted; (iv) n > burst is refused with an error (HTTP: error status, no X-Retry-In), never admitted. Non-trivial: multi-rate set in which the refusing rate is not the longest-period one and >= 5 rejected requests between two admitted ones.")
+	vstat.Rule("TokenBucketSet (sub-second periods allowed) and the HTTP TokenLimiter (periods >= 1s), 1-3 rates, frozen clock. Operation programs: advance(d), consume(n) with n around the bursts, flood(k,n) at one instant, retry-after-advertised-delay (advance exactly the returned delay / X-Retry-In, repeat the request), idle(burst*tau) then consume(min burst), consume(n > burst). Oracles: (i) metamorphic: deleting every rejected request that is not the first request at its instant leaves every remaining decision and delay identical (second instance replays the reduced time-line); (ii) a rejected n <= burst retried after the advertised delay is admitted; (iii) after idling max(burst*tau) a request of the smallest burst is admitted; (iv) n > burst is refused with an error (HTTP: error status, no X-Retry-In), never admitted; (v) a trickle of rejected requests at instants unrelated to tau cannot starve the source: n <= burst is admitted at the latest (2n+1)*tau after the last admission (the bound that holds even when every refill drops its remainder). Non-trivial: multi-rate set in which the refusing rate is not the longest-period one and >= 5 rejected requests between two admitted ones.")
 	vstat.Main(m.Run)
 }
 
@@ -118,7 +118,7 @@ func runProgram(t *rapid.T, httpLevel bool) {
 		return tbsLimiter{ratelimit.NewTokenBucketSet(rs)}
 	}
 	minBurst, maxBurst := rates[0].Burst, rates[0].Burst
-	var maxIdle time.Duration
+	var maxIdle, maxTauC time.Duration
 	longest := rates[0]
 	for _, r := range rates {
 		if r.Burst < minBurst {
@@ -132,6 +132,9 @@ func runProgram(t *rapid.T, httpLevel bool) {
 		}
 		if r.Period > longest.Period {
 			longest = r
+		}
+		if c := ceilTau(r); c > maxTauC {
+			maxTauC = c
 		}
 	}
 	genAmount := func() int64 {
@@ -178,7 +181,7 @@ func runProgram(t *rapid.T, httpLevel bool) {
 	nops := rapid.IntRange(1, 25).Draw(t, "nops")
 	var log []string
 	for i := 0; i < nops; i++ {
-		switch rapid.IntRange(0, 7).Draw(t, "op") {
+		switch rapid.IntRange(0, 8).Draw(t, "op") {
 		case 0, 1:
 			d := rapid.SampledFrom(gaps).Draw(t, "gap")
 			if d <= 0 {
@@ -219,6 +222,35 @@ func runProgram(t *rapid.T, httpLevel bool) {
 			if !d.Admitted {
 				t.Fatalf("after idling %v (= max burst*tau) a request of the full burst %d got %v (rates %v)\nprogram: %v", maxIdle, minBurst, d, rates, log)
 			}
+		case 7: // trickle of (mostly rejected) requests at instants unrelated to tau: must not starve the source
+			n := rapid.Int64Range(1, min64(minBurst, 3)).Draw(t, "trickleAmt")
+			// time of the last admission (or creation): from there every bucket earns, even if each
+			// refill drops its remainder, at least one token per 2*tau, so after (2n+1)*tau it holds n.
+			last := time.Duration(0)
+			for _, r := range tl {
+				if r.dec.Admitted {
+					last = r.at
+				}
+			}
+			bound := time.Duration(2*n+1) * maxTauC
+			frac := rapid.SampledFrom([]int64{7, 3, 2, 1}).Draw(t, "trickleFrac")
+			step := maxTauC/time.Duration(frac) + time.Duration(rapid.Int64Range(1, 999).Draw(t, "trickleJit"))
+			tries := 0
+			for {
+				d := do(n)
+				tries++
+				if d.Admitted {
+					break
+				}
+				if now-last >= bound {
+					t.Fatalf("a flood of rejected requests starves the source: requests of %d every %v since +%v are still rejected (%v) at +%v, %v after the last admission (rates %v; even with refill remainders dropped, (2n+1)*tau = %v suffices)\nprogram: %v", n, step, last, d, now, now-last, rates, bound, log)
+				}
+				if tries > 400 {
+					break
+				}
+				adv(step)
+			}
+			log = append(log, fmt.Sprintf("trickle(%d every %v: admitted after %d tries)", n, step, tries))
 		default:
 			n := maxBurst + int64(rapid.IntRange(1, 5).Draw(t, "big"))
 			log = append(log, fmt.Sprintf("consume(%d>burst)=%v", n, do(n)))
